@@ -180,7 +180,8 @@ def mathCallShapeB (cs : List ANode) : Bool :=
 /-- Shape of a row of two-dimensional math arguments: an array without parentheses. -/
 def rowShapeB (cs : List ANode) : Bool :=
   !((cs.head?.map (·.kind == .leftParen)).getD false) &&
-  cs.all (fun x => isExpr x || isCommentKind x.kind || isIgnorable x)
+  cs.all (fun x => isExpr x || isCommentKind x.kind || isIgnorable x || x.kind == .hash) &&
+  hashSeqB false cs
 
 /-- Shape of an import statement: the flattened item list holds items, comments and separators only, and
 the items are already in the order the printer would give them (or are not sorted at all). -/
@@ -1998,25 +1999,15 @@ theorem convExprM_frag (e : Env) (r : Rec) (hr : RecOK r Q) (hrM : RecOKM r QM) 
         have hsh : rowShapeB cs = true := by simpa [Kind.isMathFlow] using h1
         simp only [rowShapeB, Bool.and_eq_true, Bool.not_eq_true'] at hsh
         show Post (convArray e r ctx _) _
-        have hnh : ∀ c ∈ cs, (c.kind == .hash) = false := by
-          intro c hc
-          have := List.all_eq_true.mp hsh.2 c hc
-          simp only [Bool.or_eq_true] at this
-          rcases this with (hk | hk) | hk
-          · exact expr_not_hash hk
-          · exact comment_not_hash _ hk
-          · unfold isIgnorable at hk
-            cases hkk : c.kind <;> simp_all [Kind.fixedText]
-        have hall := inFragMS_nohash _ hq.2 hnh
-        refine convArrayM_carries e r hrM ctx hm cs a hd' hsh.1 ?_
+        refine convArrayMH_carries e r hr hrM ctx hm cs a hd' hsh.1.1 hseq ?_ hsh.2
         intro x hx
-        refine ⟨(hall x hx).1, ?_⟩
-        have := List.all_eq_true.mp hsh.2 x hx
-        simp only [Bool.or_eq_true] at this
-        rcases this with (hk | hk) | hk
-        · exact Or.inl ⟨hk, (hall x hx).2 hk⟩
-        · exact Or.inr (Or.inl hk)
-        · exact Or.inr (Or.inr hk)
+        have := List.all_eq_true.mp hsh.1.2 x hx
+        simp only [Bool.or_eq_true, beq_iff_eq] at this
+        rcases this with ((h | h) | h) | h
+        · exact Or.inl h
+        · exact Or.inr (Or.inl h)
+        · exact Or.inr (Or.inr (Or.inl h))
+        · exact Or.inr (Or.inr (Or.inr h))
       by_cases hdk : k = .mathDelimited
       · subst hdk
         have hsh : delimShapeB cs = true := by simpa [Kind.isMathFlow] using h1
